@@ -167,6 +167,10 @@ def _compose_backends(backends: Iterable[Backend]) -> Backend:
 M = TypeVar("M", bound=nn.Module)
 
 
+def _call_forward(forward: Callable[..., T], *args: Any, **kwargs: Any) -> T:
+    return forward(*args, **kwargs)
+
+
 @no_type_check
 def apply_transform(
     module: M,
@@ -230,7 +234,15 @@ def apply_transform(
             return module.dynamo_forward(*args, **kwargs)
 
     module.rerun_transform = True
-    module.base_forward = getattr(module, "base_forward", module.forward)
+    if not hasattr(module, "base_forward"):
+        if type(module).__module__.startswith(("torch.nn.", "torch.ao.")):
+            # TorchDynamo skips top-level frames defined in torch.nn, so a root module
+            # which is itself a torch.nn layer would never reach the backend. Calling
+            # its forward from a function defined here makes it an inlined call.
+            # (A partial of the bound method, so that deepcopy re-binds it to the copy.)
+            module.base_forward = functools.partial(_call_forward, module.forward)
+        else:
+            module.base_forward = module.forward
     module.forward = new_forward
     return module
 
